@@ -88,6 +88,12 @@ def translate_expression(expr, env: Env) -> TExp:  # noqa: C901
         # Get the inner type
         inner_type = env[sn.split(".")[0]].ttype
         for i in sn.split(".")[1:]:
+            if int(i) < 0:
+                # No negative indexes: there is no bit / element called "-1"
+                raise exceptions.OutOfBoundException(
+                    getattr(inner_type, "BIT_SIZE", len(get_args(inner_type))), i
+                )
+
             if hasattr(inner_type, "BIT_SIZE"):
                 if int(i) < inner_type.BIT_SIZE:
                     inner_type = bool
